@@ -36,7 +36,7 @@ Qed.
 Lemma code_locked_false : code_locked = false.
 Proof. reflexivity. Qed.
 
-Lemma step_eq : forall s e, step s e = step_gen false s e.
+Lemma step_eq : forall s e, step s e = step_gen false true s e.
 Proof. intros. unfold step. rewrite code_locked_false. reflexivity. Qed.
 
 (* ---- traces ----------------------------------------------------------------------------- *)
@@ -138,7 +138,8 @@ Section Invariant.
     i_ttw : forall its, ttw s = Some its -> cts s = false /\ blocked_ok its;
     i_dead : dead s = true -> ttw s <> None;
     i_lk : lk s = false;
-    i_ttl : ttl s = false }.
+    i_ttl : ttl s = false;
+    i_pend : pend s = false }.
 
   Definition ev_ok (e : ev) : Prop :=
     match e with
@@ -173,6 +174,7 @@ Section Invariant.
     - apply (i_dead s I).
     - apply (i_lk s I).
     - apply (i_ttl s I).
+    - apply (i_pend s I).
   Qed.
 
   Lemma inv_set_lk : forall s l, Inv s -> l = false -> Inv (set_lk s l).
@@ -208,6 +210,7 @@ Section Invariant.
     - intros D. apply (i_dead s I) in D. contradiction.
     - apply (i_lk s I).
     - apply (i_ttl s I).
+    - apply (i_pend s I).
   Qed.
 
   Lemma free_none : forall s, tt_free s = true -> ttw s = None.
@@ -234,7 +237,7 @@ Section Invariant.
     - apply inv_block; auto.
   Qed.
 
-  Lemma inv_recv : forall s p w, Inv s -> ttw s = None -> ev_ok (Recv p w) -> Inv (recv s p w).
+  Lemma inv_recv : forall s p w, Inv s -> ttw s = None -> ev_ok (Recv p w) -> Inv (recv true s p w).
   Proof.
     intros s p w I T OK. unfold recv.
     destruct (p =? 20).
@@ -253,7 +256,8 @@ Section Invariant.
       - rewrite T. discriminate.
       - intros D. apply (i_dead s I) in D. contradiction.
       - apply (i_lk s I).
-      - apply (i_ttl s I). }
+      - apply (i_ttl s I).
+      - apply (i_pend s I). }
     rewrite (i_lk s I), andb_false_r.
     destruct w; [|exact I].
     simpl in OK. destruct (disc_of p) eqn:D; [exact I| |].
@@ -264,7 +268,7 @@ Section Invariant.
       apply OK; [reflexivity|discriminate].
   Qed.
 
-  Lemma inv_step : forall s e, Inv s -> ev_ok e -> Inv (step_gen false s e).
+  Lemma inv_step : forall s e, Inv s -> ev_ok e -> Inv (step_gen false true s e).
   Proof.
     intros s e I OK. unfold step_gen. destruct (dead s); [exact I|].
     destruct e.
@@ -296,6 +300,7 @@ Section Invariant.
       simpl in OK. destruct keepalive_disc eqn:D; [exact I| |].
       + discriminate D.
       + apply inv_gate_tt; auto using keepalive_plain. right. auto.
+    - rewrite (i_pend s I). exact I.
     - destruct (ttw s) as [its|] eqn:T; [|exact I]. apply (inv_kill s its); auto.
   Qed.
 
@@ -352,7 +357,7 @@ Proof.
   intros s e its I T. destruct (i_ttw _ _ _ I its T) as [C _].
   assert (NI : is_idle (ph s) = false) by (rewrite <- (i_cts _ _ _ I); exact C).
   rewrite step_eq. unfold step_gen. destruct (dead s); [simpl; auto|].
-  destruct e; simpl; unfold tt_free; rewrite ?T, ?C, ?NI; simpl; auto.
+  destruct e; simpl; unfold tt_free; rewrite ?T, ?C, ?NI, ?(i_pend _ _ _ I); simpl; auto.
   - destruct (user_ok t); simpl; auto.
   - destruct (user_ok t); simpl; auto.
   - destruct (uq s); simpl; auto.
@@ -408,8 +413,8 @@ Lemma run_app : forall a b s, run s (a ++ b) = run (run s a) b.
 Proof. intros. unfold run. apply fold_left_app. Qed.
 
 Lemma drain : forall q ph0 n k o,
-  fold_left step (repeat UserWake (length q)) (mkst ph0 true n k None q false o false false) =
-  mkst ph0 true n k None [] false (o ++ map (fun t => (t, OUser)) q) false false.
+  fold_left step (repeat UserWake (length q)) (mkst ph0 true n k None q false o false false false) =
+  mkst ph0 true n k None [] false (o ++ map (fun t => (t, OUser)) q) false false false.
 Proof.
   induction q as [|t r IH]; intros ph0 n k o; simpl.
   - rewrite app_nil_r. reflexivity.
@@ -427,8 +432,8 @@ Lemma out_after_eq : forall p o, out_after p o = o ++ kexpart p.
 Proof. destruct p; intros o; simpl; rewrite <- ?app_assoc, ?app_nil_r; reflexivity. Qed.
 
 Lemma complete_run : forall p n k q o,
-  fold_left step (complete p) (mkst p (is_idle p) n k None q false o false false) =
-  mkst Idle true (match p with Idle => n | _ => false end) k None q false (out_after p o) false false.
+  fold_left step (complete p) (mkst p (is_idle p) n k None q false o false false false) =
+  mkst Idle true (match p with Idle => n | _ => false end) k None q false (out_after p o) false false false.
 Proof. destruct p; intros; reflexivity. Qed.
 
 Lemma queued_delivered :
@@ -442,8 +447,9 @@ Proof.
   intros keep evs s D T.
   pose proof (reach_inv keep evs) as I. fold s in I.
   pose proof (i_kf _ _ _ I) as K. pose proof (i_cts _ _ _ I) as C. pose proof (i_uq _ _ _ I) as U.
-  apply users_plain in U. pose proof (i_lk _ _ _ I) as L. pose proof (i_ttl _ _ _ I) as TL. clear I.
-  destruct s as [p c n k t q d o l tl]. simpl in *. subst d t c l tl.
+  apply users_plain in U. pose proof (i_lk _ _ _ I) as L. pose proof (i_ttl _ _ _ I) as TL.
+  pose proof (i_pend _ _ _ I) as PD. clear I.
+  destruct s as [p c n k t q d o l tl pd]. simpl in *. subst d t c l tl pd.
   unfold run. rewrite fold_left_app, complete_run, drain. simpl.
   rewrite out_after_eq, <- app_assoc. repeat split; auto.
   rewrite !off_app, K.
@@ -461,12 +467,12 @@ Proof. intros. pose proof (reach_inv keep evs) as I. split; [apply (i_ttl _ _ _ 
 (* what the generated fact protects against: if some user operation did its gated send under the lock,
    a crossing message whose handler needs the lock stalls the exchange for good (in the model: until the
    user's own timeout, which is outside it) *)
-Lemma lock_stuck_step : forall b s e, ttl s = true -> cts s = false -> is_idle (ph s) = false ->
-  let s' := step_gen b s e in
-  out s' = out s /\ cts s' = false /\ ttl s' = true /\ is_idle (ph s') = false.
+Lemma lock_stuck_step : forall b s e, pend s = false -> ttl s = true -> cts s = false -> is_idle (ph s) = false ->
+  let s' := step_gen b true s e in
+  out s' = out s /\ cts s' = false /\ ttl s' = true /\ is_idle (ph s') = false /\ pend s' = false.
 Proof.
-  intros b s e TL C NI. unfold step_gen. destruct (dead s); [simpl; auto|].
-  destruct e; simpl; unfold tt_free; rewrite ?TL, ?C, ?NI; simpl; auto.
+  intros b s e PD TL C NI. unfold step_gen. destruct (dead s); [simpl; auto|].
+  destruct e; simpl; unfold tt_free; rewrite ?TL, ?C, ?NI, ?PD; simpl; auto.
   - destruct (user_ok t); simpl; auto.
   - destruct (user_ok t); simpl; auto. destruct b; simpl; auto.
   - destruct (uq s); simpl; auto.
@@ -476,22 +482,42 @@ Proof.
   - destruct (ttw s); simpl; auto.
 Qed.
 
-Lemma lock_stuck : forall b evs s, ttl s = true -> cts s = false -> is_idle (ph s) = false ->
-  out (run_gen b s evs) = out s /\ cts (run_gen b s evs) = false /\ ttl (run_gen b s evs) = true.
+Lemma lock_stuck : forall b evs s, pend s = false -> ttl s = true -> cts s = false -> is_idle (ph s) = false ->
+  out (run_gen b true s evs) = out s /\ cts (run_gen b true s evs) = false /\ ttl (run_gen b true s evs) = true.
 Proof.
-  induction evs as [|e r IH]; simpl; intros s TL C NI; [auto|].
-  destruct (lock_stuck_step b s e TL C NI) as [O [C' [TL' NI']]].
-  destruct (IH _ TL' C' NI') as [O2 [C2 T2]]. rewrite O2, O. auto.
+  induction evs as [|e r IH]; simpl; intros s PD TL C NI; [auto|].
+  destruct (lock_stuck_step b s e PD TL C NI) as [O [C' [TL' [NI' PD']]]].
+  destruct (IH _ PD' TL' C' NI') as [O2 [C2 T2]]. rewrite O2, O. auto.
 Qed.
 
 Lemma locked_send_would_deadlock :
-  let s := run_gen true (init_st false) [UserRekey; UserSendLocked 96; Recv 93 false] in
+  let s := run_gen true true (init_st false) [UserRekey; UserSendLocked 96; Recv 93 false] in
   needs_lock 93 = true /\ ttl s = true /\ map fst (out s) = [20] /\
-  forall evs, out (run_gen true s evs) = out s /\ cts (run_gen true s evs) = false.
+  forall evs, out (run_gen true true s evs) = out s /\ cts (run_gen true true s evs) = false.
 Proof.
   intros s. split; [reflexivity|]. split; [reflexivity|]. split; [reflexivity|].
   intros evs. destruct (lock_stuck true evs s) as [O [C _]]; try reflexivity. auto.
 Qed.
+
+(* ---- the NEWKEYS window (v0 = completion signalled before the gate is released) ------------------------ *)
+(* v1 is what every theorem above is about; the working tree is v1 exactly when the translator says so *)
+Lemma tree_is_v1 : nk_atomic = true -> forall s e, step_tree s e = step s e.
+Proof. intros H s e. unfold step_tree, step. rewrite H. reflexivity. Qed.
+
+(* in v0 a renegotiate_keys that starts as soon as the previous one returned has its clear() undone by the
+   transport thread's late clear_to_send.set(): a USER message follows the new KEXINIT *)
+Lemma v0_user_send_after_kexinit :
+  let evs := [UserRekey; Recv 20 false; Recv 31 false; Recv 21 false; UserRekey; TtLate; UserSend 94] in
+  In (94, OUser) (offenders false (out (run_gen false false (init_st false) evs))) /\
+  map fst (out (run_gen false false (init_st false) evs)) = [20; 30; 21; 20; 94].
+Proof. vm_compute. split; [left; reflexivity|reflexivity]. Qed.
+
+(* the same schedule in v1: the send is held and delivered after the second exchange *)
+Lemma v1_same_schedule_gated :
+  let evs := [UserRekey; Recv 20 false; Recv 31 false; Recv 21 false; UserRekey; TtLate; UserSend 94;
+              Recv 20 false; Recv 31 false; Recv 21 false; UserWake] in
+  map fst (out (run (init_st false) evs)) = [20; 30; 21; 20; 30; 21; 94].
+Proof. vm_compute. reflexivity. Qed.
 
 (* ---- what fails in the code as written (witnesses over the generated table) ----------------------- *)
 Lemma only_kex_between_witness_global :
